@@ -37,7 +37,6 @@ import (
 	"time"
 
 	"github.com/alibaba/RedisShake/pkg/libs/log"
-	"github.com/alibaba/RedisShake/pkg/rdb/digest"
 	run "github.com/alibaba/RedisShake/redis-shake"
 	"github.com/alibaba/RedisShake/redis-shake/base"
 	utils "github.com/alibaba/RedisShake/redis-shake/common"
@@ -280,9 +279,7 @@ func c19RDB() []byte {
 	b.Write([]byte{0x00, 0x04, 'k', 'e', 'y', '1', 0x05, 'v', 'a', 'l', 'u', 'e'})
 	b.Write([]byte{0x00, 0x04, 'k', 'e', 'y', '2', 0xc0, 0x07})
 	b.WriteByte(0xff)
-	d := digest.New()
-	d.Write(b.Bytes())
-	b.Write(d.Sum(nil))
+	b.Write(crc64Trailer(b.Bytes()))
 	return b.Bytes()
 }
 
